@@ -717,6 +717,10 @@ def _(i, st, a, c): return Agg('Vec', ())
 def _(i, st, a, c): return Agg('Vec', ())
 
 
+@model(r'Vec::reserve', r'Vec::reserve_exact', r'Vec::shrink_to_fit')
+def _(i, st, a, c): return UNIT
+
+
 @model(r'Vec::pop')
 def _(i, st, a, c):
     v = i.deref_read(st, a[0])
